@@ -178,6 +178,11 @@ void DecodeMotoBYT(Word Index) {
                     break;
                 }
 
+                case TempReg:
+                    WrStrErrorPos(ErrNum_ExpectIntOrString, &Arg);
+                    OK = False;
+                    break;
+
                 default:
                     OK = False;
                     break;
@@ -282,6 +287,11 @@ void DecodeMotoADR(Word Index) {
                     }
                     Cnt = Res.Contents.str.len;
                     TranslateString(Res.Contents.str.p_str, Res.Contents.str.len);
+                    break;
+                case TempReg:
+                    WrStrErrorPos(ErrNum_ExpectIntOrString, &Arg);
+                    Res.Typ = TempNone;
+                    Cnt     = 0;
                     break;
                 case TempFloat:
                     WrStrErrorPos(ErrNum_StringOrIntButFloat, &Arg);
@@ -1000,6 +1010,10 @@ void DecodeMotoDC(tSymbolSize OpSize, Boolean Turn) {
                 }
                 break;
             case TempNone:
+                OK = False;
+                break;
+            case TempReg:
+                WrStrErrorPos(ErrNum_StringOrIntOrFloatButReg, &Arg);
                 OK = False;
                 break;
             default:
